@@ -249,7 +249,7 @@ func uniq(in []string) []string {
 // Go values for MatchSnapshot. A Val is data (JSON-serialisable); Go() builds the value.
 
 type Val struct {
-	Kind string   `json:"k"`           // str, int, float, bool, nil, struct, map, slice, ptr, bytes, err
+	Kind string   `json:"k"`           // str, nstr (defined string type), int, float, bool, nil, struct, map, slice, ptr, bytes, err
 	S    BS       `json:"s,omitempty"` // str / struct field / bytes
 	I    int64    `json:"i,omitempty"`
 	F    float64  `json:"f,omitempty"`
@@ -274,10 +274,15 @@ type demoStruct struct {
 	Any   any
 }
 
+// demoMarkdown: a defined type of kind string (template.HTML, type Markdown string, ...): formatted like a string
+type demoMarkdown string
+
 func (v Val) Go() any {
 	switch v.Kind {
 	case "str":
 		return string(v.S)
+	case "nstr":
+		return demoMarkdown(v.S)
 	case "int":
 		return int(v.I)
 	case "float":
@@ -379,6 +384,9 @@ func genStructuredVal(t *rapid.T) Val {
 func genStrVal(t *rapid.T, o textOpts, col *collector) Val {
 	for i := 0; i < 20; i++ {
 		v := strVal(genText(t, o))
+		if rapid.IntRange(0, 5).Draw(t, "namedstring") == 0 {
+			v.Kind = "nstr" // the same text as a value of a defined string type
+		}
 		if !hasTrailingCR(v.Text()) {
 			return v
 		}
